@@ -448,7 +448,15 @@ class PointsTo:
                 name = sx.callee_name(n)
                 if name is None:
                     continue
-                if self.p.resolve_in(f, name) is not None:
+                g = self.p.resolve_in(f, name)
+                if g is not None:
+                    # variadic callee (the ctl functions): the extra arguments are not parameters the points-to propagation
+                    # can follow; an `&object` passed there is written through by the matching va_arg(T*) store
+                    for j in range(len(g.params), len(n[2])):
+                        # (the request macros wrap the pointer:  ptr + (ptr - (T*)ptr) )
+                        ads = [y for y in sx.walk(n[2][j]) if sx.kind(y) == 'addr']
+                        if ads:
+                            yield ['deref', ads[0], {'t': 's'}], n, 'variadic:%s:arg%d' % (name, j)
                     continue
                 for j in A(n).get('wp', []):
                     if j < len(n[2]):
